@@ -299,8 +299,10 @@ class C09(Check):
                 if st in ('1', '0.1') or not quick:
                     tasks.append(('F_near[%s,step=%s]' % (which, st), harness_F,
                                   {'which': which, 'kind': 'near', 'step': st, 'K': 128 if quick else 4096}, kw))
-        with mp.get_context('fork').Pool(16) as pool:
-            for exp in pool.imap_unordered(_task, tasks):
+        from vf.framework import run_tasks
+        lost = lambda t, why: self.harness_errors.append('%s: no result: %s' % (t[0] if isinstance(t, (tuple, list)) else t, why))
+        if True:
+            for exp in run_tasks(_task, tasks, 16, lost, timeout_s=1500 if quick else 4 * 3600):
                 self.absorb(exp, need_paths=1)
         r_steps = ['1', '0.5', '0.3'] if quick else ['1', '0.5', '0.3', '0.1', '2.5']
         for which in ('rise', 'recession'):
